@@ -103,6 +103,8 @@ type fakeMsg struct {
 	wake     chan struct{}
 	event    chan struct{}
 	hookLocks bool
+	hookGate  chan struct{} // when set: the hook signals its entry on hookIn and waits for hookGate to be closed
+	hookIn    chan struct{}
 }
 
 func (m *fakeMsg) acc(name string) {
@@ -119,6 +121,13 @@ func (m *fakeMsg) hook(kind string) func(context.Context) error {
 			return m.hookErr
 		}
 		m.n.rec("hook")
+		if m.hookGate != nil {
+			select {
+			case m.hookIn <- struct{}{}:
+			default:
+			}
+			<-m.hookGate
+		}
 		if m.hookLocks {
 			// a hook may take the lock itself
 			m.n.mu.Lock()
@@ -618,6 +627,78 @@ func sortStrings(x []string) {
 	}
 }
 
+// gatedCloseConn delays Close until the gate is opened (a connection whose Close waits for in-flight I/O)
+type gatedCloseConn struct {
+	net.Conn
+	gate chan struct{}
+}
+
+func (c *gatedCloseConn) Close() error {
+	select {
+	case <-c.gate:
+	case <-time.After(3 * time.Second):
+	}
+	return c.Conn.Close()
+}
+
+// rrun3 <i>: the context is cancelled while a transmitter is inside its before-transmit hook (between leaving the
+// select and calling TransmitFrame); Run must still return nil, close the connection and leave no goroutine behind.
+func execRrun3(a []string) string {
+	return withTimeout(10*time.Second, func() string {
+		base := runtime.NumGoroutine()
+		c1, c2 := net.Pipe()
+		closeGate := make(chan struct{})
+		n := &fakeNode{rx: map[uint32]*fakeMsg{}, conn: &gatedCloseConn{Conn: c1, gate: closeGate}}
+		txm := &fakeMsg{n: n, desc: &descriptor.Message{Name: "TxMsg", ID: 7, SendType: descriptor.SendTypeEvent}, wake: make(chan struct{}, 1),
+			event: make(chan struct{}), hookLocks: true, hookGate: make(chan struct{}), hookIn: make(chan struct{}, 1)}
+		n.tx = []*fakeMsg{txm}
+		ctx, cancel := context.WithCancel(context.Background())
+		defer cancel()
+		done := make(chan error, 1)
+		go func() { done <- canrunner.Run(ctx, n) }()
+		go func() { // the peer drains whatever is written
+			rx := socketcan.NewReceiver(c2)
+			for rx.Receive() {
+			}
+		}()
+		rctx, rc := context.WithTimeout(context.Background(), 2*time.Second)
+		terr := (&txReq{txm}).Transmit(rctx)
+		rc()
+		if terr != nil {
+			return "request-not-accepted"
+		}
+		select {
+		case <-txm.hookIn:
+		case <-time.After(2 * time.Second):
+			return "TIMEOUT-hook-not-entered"
+		}
+		cancel()
+		time.Sleep(2 * time.Millisecond)
+		close(txm.hookGate)
+		// let the transmission that was under way finish before the connection is allowed to close
+		waitFor(func() bool { return n.count("acc:Frame") >= 1 })
+		time.Sleep(10 * time.Millisecond)
+		close(closeGate)
+		var result error
+		select {
+		case result = <-done:
+		case <-time.After(4 * time.Second):
+			return "TIMEOUT-run-did-not-return"
+		}
+		closed := "conn-closed"
+		_ = c1.SetWriteDeadline(time.Now().Add(50 * time.Millisecond))
+		if _, err := c1.Write(make([]byte, 16)); err == nil {
+			closed = "CONN-OPEN"
+		}
+		c2.Close()
+		leak := "no-leak"
+		if !waitFor(func() bool { return runtime.NumGoroutine() <= base+1 }) {
+			leak = fmt.Sprintf("GOROUTINES-LEFT=%d", runtime.NumGoroutine()-base)
+		}
+		return fmt.Sprintf("%s %s %s %s", errClass(result), closed, leak, viols(n))
+	})
+}
+
 type txReq struct{ m *fakeMsg }
 
 func (t *txReq) Transmit(ctx context.Context) error {
@@ -718,6 +799,9 @@ func genC14(g *G) {
 			g.Emit("rrun2 %d %d", k, i)
 		}
 	}
+	for i := 0; i < g.N(3, 20); i++ {
+		g.Emit("rrun3 %d", i)
+	}
 	for _, mode := range []string{"cancel", "hookerr", "hookerr-closed"} {
 		for i := 0; i < g.N(2, 20); i++ {
 			g.Emit("rrun %s %d", mode, i)
@@ -733,4 +817,5 @@ func init() {
 	RegExec("rcyc", execRcyc)
 	RegExec("rrun", execRrun)
 	RegExec("rrun2", execRrun2)
+	RegExec("rrun3", execRrun3)
 }
